@@ -67,8 +67,17 @@ pub fn case_pair(ctx: &mut Ctx, gi: &GInfo, rule: usize, tape: &[u8]) -> CaseRes
     if !gi.g.forms() {
         return check_pair(ctx, gi, rule, &body1, Form::Str, Form::Str);
     }
-    let body2: String = match t.below(4) {
+    let body2: String = match t.below(5) {
         0 => body1.clone(),
+        4 => {
+            // early mutation: only the first character differs (first element of a sequence)
+            let mut cs: Vec<char> = body1.chars().collect();
+            if let Some(f) = cs.first_mut() {
+                let c = gi.sg.alpha[t.below(gi.sg.alpha.len())];
+                *f = if c == *f { if c.is_ascii_lowercase() { c.to_ascii_uppercase() } else { 'b' } } else { c };
+            }
+            cs.into_iter().collect()
+        }
         1 => {
             // late mutation: change / drop / add near the end
             let mut cs: Vec<char> = body1.chars().collect();
